@@ -32,6 +32,21 @@ CHECKS = {
              "healthy tree; same workload dimensions as C01 plus classes of 1..N across roots and hard links.",
         note=COMMON_NOTE + "Plain selection only (selection semantics are C09's job).",
         design="4/C03"),
+    "C02": dict(
+        category="exploration",
+        technique="runtime monitoring: real group->dedupe pipelines, before/after inventory oracle, shim event log",
+        text="The real two-process pipeline (fclones group > R; fclones remove|link|link --soft|dedupe|move < R) runs on "
+             "generated trees with hard-link sets, -S symlinks, --isolate roots, shell-hostile and non-UTF-8 names "
+             "(incl. names with leading/trailing white space next to same-length decoys named like the trimmed name), "
+             "text and JSON reports and random dedupe options. A model-free oracle compares full inventories: no "
+             "content digest disappears from regular files, at least max(1,n) replicas of every group are byte-, "
+             "inode- and mtime-identical, nothing outside the reported groups changes, linked/cloned paths read back "
+             "their bytes, moved bytes exist under DIR. `dedupe` is exercised natively (EOPNOTSUPP: nothing may change) "
+             "and through the shim's FICLONE emulation.",
+        note=COMMON_NOTE + "FICLONE success is emulated by the LD_PRELOAD shim (whole-file copy); the excluded combination "
+             "--match-links + --symbolic-links is never generated. Known finding D18 (--isolate with -S) is listed in "
+             "known_findings.json.",
+        design="4/C02"),
 }
 
 NOT_YET = {}
